@@ -130,6 +130,13 @@ func (h *Handler) HandleReadDir(ctx *Context) []fs.FileInfo {
 	entries, err := ctx.State.CwdHandle.Readdir(-1)
 	if err != nil {
 		log.WarnContext(ctx, "Read dir failed", logutil.ErrorAttr(err))
+
+		// some entries are consumed already, next read from this handle would present the rest as a whole directory
+		if err := ctx.State.CwdHandle.Close(); err != nil {
+			log.WarnContext(ctx, "Close ctx.State.CwdHandle failed", logutil.ErrorAttr(err))
+		}
+		ctx.State.CwdHandle = nil
+
 		return []fs.FileInfo{}
 	}
 
